@@ -37,6 +37,8 @@ func genCase(seed int64, label string, idx int, kind, mask int, opt gen.Opts, la
 	switch layout {
 	case "minimal":
 		l = gen.Layout{Minimal: true}
+	case "loose":
+		l = gen.Layout{Spaced: true, Loose: true}
 	case "spaced":
 		l = gen.Layout{Spaced: true}
 	default:
